@@ -7,7 +7,7 @@ read-only arrays, non-contiguous views, Fortran order.
 import numpy as np
 
 FORMS = ['list', 'readonly', 'strided', 'fortran', 'int64', 'int32',
-         'pyint']
+         'pyint', 'float32', 'series']
 
 
 def integer_valued(a):
@@ -46,8 +46,9 @@ def variant(a, form):
         import pandas as pd
         if a.ndim != 1 or a.size == 0:
             return None
-        return pd.Series(a, index=['label %d' % (a.size - i)
-                                   for i in range(a.size)])
+        # (integer labels in another order than the positions: a row
+        # selection of a results table)
+        return pd.Series(a, index=list(range(a.size))[::-1])
     if form in ('int64', 'int32', 'pyint'):
         if not integer_valued(a):
             return None
